@@ -149,6 +149,13 @@ func Attrs(r *rand.Rand, legacy bool) *message.Attributes {
 		for i := r.Intn(4); i >= 0; i-- {
 			a.Exts[gen.Str(r, 10)] = ExtVal(r, 3)
 		}
+		// extension keys that happen to be attribute names of the legacy format (in any case), with values of any JSON type
+		if !legacy && r.Intn(3) == 0 {
+			names := []string{"TouchlessSudoTime", "TouchlessSudoHosts", "IsFirefighter", "HardKey", "Touch2SSH", "SSHClientVersion", "req", "IFVer", "touchlesssudotime", "hardkey", "username", "transID"}
+			for i := 1 + r.Intn(3); i > 0; i-- {
+				a.Exts[names[r.Intn(len(names))]] = ExtVal(r, 2)
+			}
+		}
 		if r.Intn(40) == 0 {
 			for i := 300 + r.Intn(700); i > 0; i-- {
 				a.Exts["k"+strconv.Itoa(i)] = ExtVal(r, 1)
